@@ -34,8 +34,11 @@ def fill(chk, not_yet):
     chk("C09", "exploration",
         "For every forest over <=4 points x every outlier subset (<=5 thorough) and random forests to 7 points: exact law "
         "of RootPermutationDistribution.sample by replay equals the uniform law on the brute-force set of compatible "
-        "orders, log_pdf = -log #orders; 8-12 points: membership of sampled orders + independent count.",
-        "brute-force enumeration and counting recursion (reference) cross-check each other.",
+        "orders, log_pdf = -log #orders (also pre-order relabelled, shuffled siblings, after a dictionary round trip); 8-12 "
+        "points and forests with 257-513 sibling chains: membership of sampled orders, independent count, and a symmetric-"
+        "pair monitor (two points exchanged by a symmetry of the tree must not keep one relative order over 60 draws).",
+        "brute-force enumeration and counting recursion (reference) cross-check each other; a correct sampler trips the "
+        "symmetric-pair monitor with probability < 1e-12 per run.",
         "runtime monitoring: exhaustive replay of shuffles vs brute-force linear extensions",
         "DESIGN.md 4/C09")
     chk("C06", "exploration",
@@ -43,7 +46,7 @@ def fill(chk, not_yet):
         "data-point move, prune-regraft, subtree extraction/re-attachment with carried outliers, relabel, copy, dict/"
         "pickle round trips) and on the intermediate states the samplers pass through (after pruning, after grafting "
         "before the full update): every clone's vectors, root vector, both densities, ==/hash against a fresh bottom-up "
-        "build; alias guard re-digests source trees and second candidates grafted from the same subtree; the same oracle "
+        "build made with memoisation bypassed; data incl. bit-identical twins and mixed scales (1e-3..1e6); alias guard re-digests source trees and second candidates grafted from the same subtree; the same oracle "
         "as a postcondition of every real sampler's sample_tree. Held on the histories generated, not a proof.",
         "tolerance 1e-8 relative; deviations confined to entries outside the C02 underflow window (band from the "
         "interval reference recursion wider than 1e-9) are counted, not reported - the property's own quantifier.",
@@ -69,7 +72,8 @@ def fill(chk, not_yet):
     chk("C19", "exploration",
         "Real phyclone.run.run in-process on generated inputs over random points of the CLI cross-product whose value "
         "tables contain every range boundary (single data point, threshold 0/1, particles 1, outlier prob 0/1e-4/0.3/1, "
-        "subtree prob 0/1, time limit 0, alpha 1e-6..1e6 ...), plus forced extreme Gamma draws; no exception; every "
+        "subtree prob 0/1, time limit 0, alpha 1e-6..1e6 ...), every 20th run on a large input (6-12 samples, clusters of "
+        "100-140 mutations at ~1000x, |log_p_one| 1e4-1e5), plus forced extreme Gamma draws; no exception; every "
         "entry well-formed over all data with finite log_p_one.",
         "alpha>0, precision>0, print frequency>=1 (model's domain); multi-chain / click entry covered by C18/C20.",
         "runtime monitoring: configuration sweep of the real run loop with trace-entry monitors and boundary injection at the continuous draws",
@@ -79,7 +83,9 @@ def fill(chk, not_yet):
         "assignments (<=4 clones, G<=5, D<=2; compared wherever the value is above the floor) and (b) an interval "
         "recursion giving the band of values a correct floored implementation may report (exact minus underflow loss .. "
         "exact plus floor injection / FFT noise): random forests to 12 clones, 8 children, 6 top-level clones, D 1-4, "
-        "flat/moderate/peaked/real-emission data, G 3..1201 across the direct/FFT switch; finiteness everywhere.",
+        "flat/moderate/peaked/real-emission/mixed-scale/twin data, G 3..1201 across the direct/FFT switch, trees built "
+        "bottom-up or incrementally (points added one by one, some by way of another clone), related forests evaluated "
+        "first (warm caches); finiteness everywhere.",
         "band constants (1e-100 floor, 1e-300 underflow, 1e-10 FFT noise per pairwise step, FFT from 1000 points) "
         "taken from the property statement / pinned code; reference recursion cross-checked by the brute force.",
         "runtime monitoring: reference-model oracle (brute force + interval recursion) over generated forests and data",
@@ -107,8 +113,10 @@ def fill(chk, not_yet):
         "proposal caches, cached new-clone tree) during instrumented chain runs with concentration updates and the run "
         "loop's clearing, and synthetic key-scheme histories (all child orders, duplicates, one-ulp neighbours, "
         "alternating alpha with/without clearing, equal parents via different objects), is shadowed by the wrapped "
-        "original on the same arguments at that moment; cached values re-digested on later hits. Minimum hit counts per "
-        "cache or the run is inconclusive.",
+        "original on the same arguments at that moment; cached values re-digested on later hits; cache keys of 3e5 (quick) / "
+        "1e6 (thorough) distinct likelihood arrays per process collected through the memoisation's own key objects, any two "
+        "different arrays with equal keys played through the memoised function. Minimum hit counts per cache or the run is "
+        "inconclusive.",
         "one grid shape per process (the property's quantifier); arrays compared above 1e-60 of the row peak at 1e-9 "
         "relative; proposal objects compared by support / log-probabilities / sampling vector.",
         "runtime monitoring: shadow execution of memoised functions against their unmemoised originals",
@@ -118,13 +126,15 @@ def fill(chk, not_yet):
         "minor 0..major, normal 1-3, tumour content incl. 1.0/1e-3, error rate 1e-6..0.49, both densities, precision "
         "0.1..1e5, grids 2..201, clustered or not) against an independent genotype-mixture reference built on "
         "scipy.stats pmfs; density sums to one over all alternate counts (depth<=300); cluster = sum of members; "
-        "outlier terms = size*log p, size*log(1-p), (0,0) for p=0.",
+        "outlier terms = size*log p, size*log(1-p), (0,0) for p=0, with the loss probability given globally, per cluster, or "
+        "assigned by the program (low / high value, with or without a chrom column).",
         "reference genotype enumeration written from the property statement; tolerance 1e-6+1e-10*depth in log space.",
         "runtime monitoring: reference-model oracle on generated input files and direct density calls",
         "DESIGN.md 4/C05")
     chk("C17", "exploration",
         "load_data on generated tables containing every documented filter class (missing in a sample, zero major CN in "
-        "a sample, duplicated, zero everywhere), numeric/string ids, tab/comma, optional columns present/absent, "
+        "a sample, duplicated, zero everywhere), numeric/string ids, tab/comma, optional columns present/absent, unused "
+        "annotation columns with blank cells, "
         "cluster files: kept set, sorted order, idx 0..n-1, per-sample rows against the emission reference (defaults "
         "1.0 / 0.001), MajorCopyNumberError for major<minor; 5 row permutations of each table give bit-identical data.",
         "the two table classes the property excludes are never generated.",
@@ -133,7 +143,8 @@ def fill(chk, not_yet):
     chk("C10", "exploration",
         "get_map_node_ccfs_and_clonal_prev_dicts on generated trees: values on the CCF grid, per-sample feasibility "
         "(clone >= sum of children, top-level sum <= 1), objective value equal to a brute-force maximum (<=4 clones, G<=6) "
-        "or an independent max-plus recursion (<=10 clones, 8 children, G 11/21/101, flat all-tie data included), "
+        "or an independent max-plus recursion (<=10 clones, 8 children, G 11/21/101, flat all-tie data included; <=5 clones "
+        "on fine grids 257..1001), "
         "prevalence = ccf - children >= -1e-12.",
         "ties accepted (only the attained value is compared); the two reference maximisers cross-check each other.",
         "runtime monitoring: reference-model oracle (brute force / max-plus recursion) over generated trees",
@@ -151,8 +162,10 @@ def fill(chk, not_yet):
         "entry is a designated corner tree (single clone, all outliers, one outlier, all-but-one outliers, deep chain, "
         "many top-level clones) or a random tree, clustered (integer ids, 1-3 mutations per cluster) or not, 1-3 samples: "
         "every (mutation, sample) once, clone ids in Newick or -1, clusters share a clone, per-clone ccf/prev, -1/-1 for "
-        "outliers, command completes.",
-        "optimality of the per-clone values belongs to C10.",
+        "outliers, command completes; every topology of the archive is read; traces of related topologies; the CCFs a table "
+        "lists must attain the maximum summed log-likelihood on the table's own tree (independent max-plus recursion over "
+        "the trace's data).",
+        "ties between CCF assignments accepted (value compared).",
         "runtime monitoring: offline checker of written result files over generated traces",
         "DESIGN.md 4/C12")
     chk("C16", "exploration",
@@ -168,7 +181,8 @@ def fill(chk, not_yet):
         "1/2/4 chains), each under a reference environment and perturbed ones - PYTHONHASHSEED 1/12345/random, one core "
         "(taskset), nice, concurrent load, and sitecustomize failpoints that hold chain k's return until named chains "
         "have finished (ascending / descending completion order forced): per chain exact equality of iter, alpha bits, "
-        "log_p_one bits, canonical tree and labels; a longer 3-chain run on branching data under all / one / two cores; "
+        "log_p_one bits, canonical tree and labels; a longer 3-chain run on branching data under all / one / two cores; runs "
+        "on grids 300 / 501 under a failpoint that perturbs every clock reading (seeded drift, 5 seeds); "
         "child interpreters with different PYTHONHASHSEED running the same seeded chain on string-named data; in-process "
         "pairs of the same seeded chain under different ambient random state (numpy global state, random module). "
         "Evidence lists completion orders and hash seeds actually observed; a multi-chain configuration with a single "
@@ -183,7 +197,9 @@ def fill(chk, not_yet):
         "prefix in the thorough tier) is read by map, consensus and topology-report in-process: the reader raises or its "
         "output files are byte-identical to the complete file's. Plus real `phyclone run` processes whose final write is "
         "cut at byte N by a failpoint (os._exit / ENOSPC), read back by the real CLI (non-zero exit or identical output; "
-        "the run itself must not exit 0). Exhaustive over crash points of the traces used.",
+        "the run itself must not exit 0); plus multi-chain runs interrupted after k of n chains completed (a chain's worker "
+        "killed or raising, ordered by failpoint), whatever is left at the output path read by the three summary commands, "
+        "which must fail. Exhaustive over byte crash points of the traces used.",
         "single gzip stream written at the end of the run; a cut inside the 8-byte gzip trailer that still yields the "
         "complete content is accepted.",
         "runtime monitoring with fault injection: exhaustive truncation points + write-failure failpoints in real processes",
